@@ -85,6 +85,10 @@ keeps the blanks). The model is a model of the repaired tree.
 * C09 after the fix e0c256b: `$ENTER 10.0^400` became the same unbounded count as `$ENTER 10^400` (known finding D19); the fixed
   edge corpus skips it like its twin (the D19 probe covers it).
 * C14: a new generator family mixed 2- and 4-space indentation (InvalidTabError, correctly); generator corrected.
+* C09 thorough sweep: the token-soup family drew `$ENTER 10^400` — the known finding D19 under another family name. A hang is
+  now identified by the call site the implementation was busy in when the timer fired (`compiler/commands/enter.py:run_compile`),
+  and D19 is keyed on that call site, so the same defect reached through any generator is the same finding while a hang
+  anywhere else is still a new violation.
 
 ### 10.5 Seeded changes (`seeded/<id>/`: patch.diff, demo.py, meta.json) and the checks that catch them
 
